@@ -13,6 +13,7 @@ cd $wt
 if ! git apply --3way $src/patch.diff >>$log 2>&1; then echo "RESULT apply=FAIL" | tee -a $log; cd /; git -C /repo worktree remove --force $wt; exit 1; fi
 if grep -rn '^<<<<<<<' src >/dev/null; then echo "RESULT apply=CONFLICT" | tee -a $log; cd /; git -C /repo worktree remove --force $wt; exit 1; fi
 git diff HEAD -- src > $out/patch.diff
+sleep 1; find src -name '*.rs' -exec touch {} +   # cargo's mtime fingerprints: never reuse a build of the other tree
 cp $src/demo.rs $out/demo.rs; cp $src/notes.md $out/notes.md 2>/dev/null
 b=ok
 cargo build --offline >>$log 2>&1 || b=fail-astd
@@ -22,9 +23,10 @@ t=$(cargo test --offline --workspace --no-fail-fast --lib 2>&1 | grep -E "^test 
 mkdir -p tests; cp $src/demo.rs tests/demo.rs
 feat=""; grep -q "link_to" tests/demo.rs && feat="--features link_to"
 [ -n "$DEMO_FEATURES" ] && feat="$DEMO_FEATURES"   # e.g. "--no-default-features --features tokio-runtime" for a change only one flavour compiles
-with=$(cargo test --offline $feat --test demo 2>&1 | grep -E "^test result" | head -1)
+with=$(cargo test --offline $feat --test demo 2>&1 | grep -E "^test result" | tail -1)
 git -c core.hooksPath=/dev/null reset -q --hard HEAD
+sleep 1; find src -name '*.rs' -exec touch {} +
 mkdir -p tests; cp $src/demo.rs tests/demo.rs
-without=$(cargo test --offline $feat --test demo 2>&1 | grep -E "^test result" | head -1)
+without=$(cargo test --offline $feat --test demo 2>&1 | grep -E "^test result" | tail -1)
 echo "RESULT build=$b | baseline: $t | demo with mutant: $with | demo without: $without" | tee -a $log
 cd /; git -C /repo worktree remove --force $wt
